@@ -23,7 +23,8 @@ Kinds ==
       b \in BOOLEAN, a \in BOOLEAN }
 
 \* "nograd": a plain input, the call made under torch.no_grad() (inference)
-InputKinds == {"plain", "view", "noncontig", "grad", "nograd"}
+\* "shape2": the same values with another event shape (for elementwise transforms that take any shape)
+InputKinds == {"plain", "view", "noncontig", "grad", "nograd", "shape2"}
 \* operations that run the transform in the data -> noise direction
 ForwardLike == {"forward", "log_prob", "transform_to_noise"}
 
